@@ -1,14 +1,30 @@
 #!/bin/bash
-# tools/trymut.sh <patch.diff> <ID> [<ID>...]  — apply a change to /repo, run the quick checks, undo it.
+# tools/trymut.sh <patch.diff> <ID> [<ID>...]
+# Applies a change to a SCRATCH copy of /repo (so concurrent work on /repo is not disturbed), points a scratch copy of
+# the harness at it, runs the quick (or $TIER) checks and removes the copies.
+# With INPLACE=1 the patch is applied to /repo itself (git apply) and undone afterwards (git checkout -- .).
 # Prints one line per check: CAUGHT (exit 1) / MISSED (exit 0) / HARNESS (exit 2).
-patch="$1"; shift
-cd /verif || exit 2
-if [ -n "$(git -C /repo status --porcelain)" ]; then echo "/repo not clean"; exit 2; fi
-git -C /repo apply "$patch" || { echo "patch does not apply"; exit 2; }
-trap 'git -C /repo checkout -- . ; git -C /repo clean -fdq' EXIT
+patch="$(readlink -f "$1")"; shift
+name="$(basename "$(dirname "$patch")")"
+if [ -n "${INPLACE:-}" ]; then
+  cd /verif || exit 2
+  if [ -n "$(git -C /repo status --porcelain)" ]; then echo "/repo not clean"; exit 2; fi
+  git -C /repo apply "$patch" || { echo "patch does not apply"; exit 2; }
+  trap 'git -C /repo checkout -- . ; git -C /repo clean -fdq' EXIT
+  V=/verif
+else
+  T=$(mktemp -d /tmp/tm.XXXXXX)
+  trap 'rm -rf "$T"' EXIT
+  rsync -a --exclude .git /repo/ "$T/repo/"
+  ( cd "$T/repo" && git apply "$patch" ) || { echo "patch does not apply: $patch"; exit 2; }
+  rsync -a --exclude .git --exclude .bin --exclude replays --exclude scratch /verif/ "$T/verif/"
+  sed -i "s#=> /repo#=> $T/repo#" "$T/verif/harness/go.mod"
+  V="$T/verif"
+fi
+cd "$V" || exit 2
 for id in "$@"; do
   out=$(VERIF_SEED=${VERIF_SEED:-1} ./run "$id" ${TIER:-quick} 2>&1); rc=$?
   case $rc in 1) v=CAUGHT;; 0) v=MISSED;; *) v="HARNESS($rc)";; esac
-  echo "$v $id $(basename $(dirname $patch)) :: $(echo "$out" | grep -m2 'key=' | tr '\n' ' ' | cut -c1-220)"
+  echo "$v $id $name :: $(echo "$out" | grep -m2 'key=' | tr '\n' ' ' | cut -c1-220)"
   if [ "$rc" != 1 ] && [ -n "${SHOW:-}" ]; then echo "$out" | tail -5; fi
 done
